@@ -60,7 +60,7 @@ def main(argv):
                     t0 = time.time()
                     rc, out = sh([os.path.join(VERIF, 'check'), chk, tier],
                                  env=dict(os.environ, VERIF_REPO=wt, VERIF_SEED=seed, VERIF_NO_CONFIRM='1', VERIF_NO_EVIDENCE='1'), timeout=7200)
-                    sigs = [l.split('signature=')[1].split(' ')[0] for l in out.splitlines() if 'signature=' in l]
+                    sigs = [l.split('signature=')[1].split(' ')[0] for l in out.splitlines() if l.strip().startswith('signature=')]
                     verdict = 'DETECTED' if rc == 1 and 'VIOLATION property=%s' % chk in out else ('silent' if rc == 0 else 'rc=%d' % rc)
                     print('%-28s %s seed=%s %-9s %s %5.1fs %s' % (sid, chk, seed, verdict, demo, time.time() - t0, ' '.join(sigs[:2])))
                     sys.stdout.flush()
